@@ -49,6 +49,7 @@ pub fn bucket(n: usize) -> usize { let mut b = 1; while b < n { b *= 10; } b }
 
 pub fn merged<E: Est>(out: &mut Out, t: &Tree, trace: Trace, rng: &mut Rng, allow: &dyn Fn(&str) -> bool) {
     if !out.next_case() { return; }
+    out.tree_comment(E::NAME, &|| t.encode(), t.flatten().len());
     let e: E = eval_tree(out, t, trace, rng);
     let accs = observe(out, &e);
     let data = t.flatten();
